@@ -110,6 +110,10 @@ class RdfBuilder:
                 # namespace is written in abbreviated form the text carries no @prefix line for it
                 return QualifiedName(r.choice(self.nss), r.choice(["10.5281/zenodo.%d", "a/b%d", "p/q/r%d"]) % r.randint(0, 4))
             return self.name()
+        if r.random() < 0.3:
+            # a URI is the characters it is written with: an empty fragment or query, an upper-case scheme, a one-slash file: URI
+            return Identifier(r.choice(["http://example.org/vocab/ns#", "http://example.org/search?", "HTTP://Example.org/A",
+                                        "file:/x/y", "urn:example:thing#", "http://example.org/a%20b?x=%2F"]))
         return Identifier("http://example.org/id/" + str(r.randint(0, 9)))
 
     def zone(self, t):
